@@ -14,6 +14,18 @@ fn one(entry: &str) -> Option<Vec<u8>> {
             dryoc::rng::copy_randombytes(&mut b);
             b.to_vec()
         }
+        "copy_randombytes17" => { let mut b = [0u8; 17]; dryoc::rng::copy_randombytes(&mut b); b.to_vec() }
+        "copy_randombytes37" => { let mut b = [0u8; 37]; dryoc::rng::copy_randombytes(&mut b); b.to_vec() }
+        "randombytes_buf21" => dryoc::rng::randombytes_buf(21),
+        "stack_gen37" => StackByteArray::<37>::gen().to_vec(),
+        "array_gen20" => <[u8; 20] as NewByteArray<20>>::gen().to_vec(),
+        "vec_gen33" => <Vec<u8> as NewByteArray<33>>::gen(),
+        "pwhash_hash_salt32" | "pwhash_hash_salt21" | "pwhash_hash_salt64" => {
+            let n: usize = entry[16..].parse().unwrap();
+            let h: dryoc::pwhash::VecPwHash = dryoc::pwhash::PwHash::hash(&b"pw".to_vec(), dryoc::pwhash::Config::interactive().with_opslimit(1).with_memlimit(8192).with_salt_length(n)).unwrap();
+            let (_h, salt, _c) = h.into_parts();
+            salt
+        }
         "secretbox_keygen" => crypto_secretbox::crypto_secretbox_keygen().to_vec(),
         "secretbox_keygen_inplace" => {
             let mut k = [0u8; 32];
